@@ -229,3 +229,137 @@ func HostileCoveredFields(t *rapid.T, txn *types.Transaction) bool {
 	}
 	return true
 }
+
+// HostileCrossKindID rewires one parent reference of the block to the ID of an element that an EARLIER transaction
+// of the same block created — of any kind (siacoin output, siafund output, v1/v2 contract, attestation) — and, for
+// v2 inputs, optionally marks the parent as ephemeral. The per-block lookup tables of validation are keyed by ID
+// across all element kinds, so a reference of one kind that hits an entry of another kind must be refused cleanly
+// (no index panic, no acceptance). With pad, a signed transaction carrying several attestations is put in front of
+// the v2 transactions first, so that foreign indices exceed the number of siacoin / siafund / contract entries.
+// The result is NOT re-signed or re-sealed.
+func HostileCrossKindID(t *rapid.T, cs consensus.State, blk *types.Block, pad bool) string {
+	desc := ""
+	if pad && blk.V2 != nil {
+		var at types.V2Transaction
+		n := rapid.IntRange(1, 4).Draw(t, "padAttestations")
+		for i := 0; i < n; i++ {
+			at.Attestations = append(at.Attestations, types.Attestation{PublicKey: Pub(i), Key: "pad", Value: []byte{byte(i)}})
+		}
+		SignV2(cs, &at, SignOpts{})
+		blk.V2.Transactions = append([]types.V2Transaction{at}, blk.V2.Transactions...)
+		desc += "attestation-padding; "
+	}
+	type created struct {
+		id   types.Hash256
+		pos  int
+		kind string
+	}
+	type ref struct {
+		set  func(types.Hash256)
+		eph  func()
+		pos  int
+		kind string
+	}
+	var cr []created
+	var refs []ref
+	pos := 0
+	for ti := range blk.Transactions {
+		txn := &blk.Transactions[ti]
+		for i := range txn.SiacoinInputs {
+			in := &txn.SiacoinInputs[i]
+			refs = append(refs, ref{func(h types.Hash256) { in.ParentID = types.SiacoinOutputID(h) }, nil, pos, "v1-siacoin-input"})
+		}
+		for i := range txn.SiafundInputs {
+			in := &txn.SiafundInputs[i]
+			refs = append(refs, ref{func(h types.Hash256) { in.ParentID = types.SiafundOutputID(h) }, nil, pos, "v1-siafund-input"})
+		}
+		for i := range txn.FileContractRevisions {
+			r := &txn.FileContractRevisions[i]
+			refs = append(refs, ref{func(h types.Hash256) { r.ParentID = types.FileContractID(h) }, nil, pos, "v1-revision"})
+		}
+		for i := range txn.StorageProofs {
+			sp := &txn.StorageProofs[i]
+			refs = append(refs, ref{func(h types.Hash256) { sp.ParentID = types.FileContractID(h) }, nil, pos, "v1-storage-proof"})
+		}
+		for i := range txn.SiacoinOutputs {
+			cr = append(cr, created{types.Hash256(txn.SiacoinOutputID(i)), pos, "siacoin"})
+		}
+		for i := range txn.SiafundOutputs {
+			cr = append(cr, created{types.Hash256(txn.SiafundOutputID(i)), pos, "siafund"})
+		}
+		for i := range txn.FileContracts {
+			cr = append(cr, created{types.Hash256(txn.FileContractID(i)), pos, "contract"})
+		}
+		pos++
+	}
+	if blk.V2 != nil {
+		for ti := range blk.V2.Transactions {
+			txn := &blk.V2.Transactions[ti]
+			for i := range txn.SiacoinInputs {
+				in := &txn.SiacoinInputs[i]
+				refs = append(refs, ref{func(h types.Hash256) { in.Parent.ID = types.SiacoinOutputID(h) },
+					func() { in.Parent.StateElement = types.StateElement{LeafIndex: types.UnassignedLeafIndex} }, pos, "v2-siacoin-input"})
+			}
+			for i := range txn.SiafundInputs {
+				in := &txn.SiafundInputs[i]
+				refs = append(refs, ref{func(h types.Hash256) { in.Parent.ID = types.SiafundOutputID(h) },
+					func() { in.Parent.StateElement = types.StateElement{LeafIndex: types.UnassignedLeafIndex} }, pos, "v2-siafund-input"})
+			}
+			for i := range txn.FileContractRevisions {
+				r := &txn.FileContractRevisions[i]
+				refs = append(refs, ref{func(h types.Hash256) { r.Parent.ID = types.FileContractID(h) },
+					func() { r.Parent.StateElement = types.StateElement{LeafIndex: types.UnassignedLeafIndex} }, pos, "v2-revision"})
+			}
+			for i := range txn.FileContractResolutions {
+				r := &txn.FileContractResolutions[i]
+				refs = append(refs, ref{func(h types.Hash256) { r.Parent.ID = types.FileContractID(h) },
+					func() { r.Parent.StateElement = types.StateElement{LeafIndex: types.UnassignedLeafIndex} }, pos, "v2-resolution"})
+			}
+			func() {
+				defer func() { recover() }() // a hostile (nil) resolution cannot be hashed: no IDs from this transaction
+				txid := txn.ID()
+				for i := range txn.SiacoinOutputs {
+					cr = append(cr, created{types.Hash256(txn.SiacoinOutputID(txid, i)), pos, "siacoin"})
+				}
+				for i := range txn.SiafundOutputs {
+					cr = append(cr, created{types.Hash256(txn.SiafundOutputID(txid, i)), pos, "siafund"})
+				}
+				for i := range txn.FileContracts {
+					cr = append(cr, created{types.Hash256(txn.V2FileContractID(txid, i)), pos, "v2-contract"})
+				}
+				for i := range txn.Attestations {
+					cr = append(cr, created{types.Hash256(txn.AttestationID(txid, i)), pos, "attestation"})
+				}
+			}()
+			pos++
+		}
+	}
+	if len(refs) == 0 || len(cr) == 0 {
+		return desc
+	}
+	for tries := 0; tries < 8; tries++ {
+		r := refs[rapid.IntRange(0, len(refs)-1).Draw(t, "xkRef")]
+		var earlier []created
+		for _, c := range cr {
+			if c.pos < r.pos {
+				earlier = append(earlier, c)
+			}
+		}
+		if len(earlier) == 0 {
+			continue
+		}
+		// the last entries of a kind carry the highest per-kind indices
+		c := earlier[len(earlier)-1-rapid.IntRange(0, len(earlier)-1).Draw(t, "xkCreated")%len(earlier)]
+		if rapid.Bool().Draw(t, "xkLast") {
+			c = earlier[len(earlier)-1]
+		}
+		r.set(c.id)
+		desc += r.kind + " parent := id of " + c.kind + " created by an earlier transaction"
+		if r.eph != nil && rapid.IntRange(0, 2).Draw(t, "xkEphemeral") != 0 {
+			r.eph()
+			desc += " (as ephemeral parent)"
+		}
+		return desc + "; "
+	}
+	return desc
+}
